@@ -179,6 +179,32 @@ class Check(PropertyCheck):
     def setup(self, tier):
         self.parallel = False
 
+    # ---------------------------------------------------------------- (T) tables regenerated from the live code
+    def translate(self):
+        import h2.utilities
+        from mitmproxy.net.http import validate
+
+        def lit(b): return "[" + ", ".join(str(c) for c in b) + "]"
+
+        def lst(items): return "[" + ",\n   ".join(items) + "]"
+        conn = sorted(bytes(x) for x in h2.utilities.CONNECTION_HEADERS)
+        tes = sorted(validate._HTTP_1_1_TRANSFER_ENCODINGS)
+        te_chunked = [t.encode() for t in tes if t.split(",")[-1] == "chunked"]
+        te_other = [t.encode() for t in tes if t.split(",")[-1] != "chunked"]
+        reasons = sorted((k, v.encode()) for k, v in status_codes.RESPONSES.items())
+        known = sorted(ref.KNOWN_CODINGS)
+        out = ("-- generated by harness/c06.py (Check.translate) from h2.utilities.CONNECTION_HEADERS,\n"
+               "-- mitmproxy.net.http.validate._HTTP_1_1_TRANSFER_ENCODINGS, mitmproxy.net.http.status_codes.RESPONSES\n"
+               "-- and harness/common/refparsers.KNOWN_CODINGS — do not edit\n"
+               "import MitmVerif.Basic.Bytes\nnamespace MitmVerif.Gen.C06\nopen MitmVerif\n\n"
+               f"def connectionHeaders : List Bytes :=\n  {lst([lit(x) for x in conn])}\n\n"
+               f"def teChunked : List Bytes :=\n  {lst([lit(x) for x in te_chunked])}\n\n"
+               f"def teOther : List Bytes :=\n  {lst([lit(x) for x in te_other])}\n\n"
+               f"def knownCodings : List Bytes :=\n  {lst([lit(x) for x in known])}\n\n"
+               f"def reasons : List (Nat × Bytes) :=\n  {lst([f'({k}, {lit(v)})' for k, v in reasons])}\n\n"
+               "end MitmVerif.Gen.C06\n")
+        return {"MitmVerif/Gen/C06.lean": out}
+
     # ---------------------------------------------------------------- generator
     NAMES = [b"accept", b"user-agent", b"x-a", b"x-b", b"cookie", b"cookie", b"content-type", b"x-long-name-1", b"te",
              b"accept-encoding", b"cache-control", b"x-c"]
@@ -391,7 +417,14 @@ class Check(PropertyCheck):
             peer.do(peer.c.send_headers, sid, trailers, end_stream=True)
         return True
 
+    _memo = (None, None)
+
     def impl(self, case):
+        obs = self._impl(case)
+        self._memo = (json.dumps(case, sort_keys=True), obs)
+        return obs
+
+    def _impl(self, case):
         cv, sv = case["cv"], case["sv"]
         st = bool(case.get("stream"))
         rig = Rig(cv, sv, stream_req=st, stream_resp=st)
@@ -567,6 +600,107 @@ class Check(PropertyCheck):
                     if cv == 2 and sv == 2 and rs.trailers and [(k.lower(), v) for k, v in rs.trailers] != (got["trailers"] or []):
                         fails.append(f"response trailers changed: {rs.trailers!r} -> {got['trailers']!r}")
         return fails
+
+    # ---------------------------------------------------------------- model tie
+    # Compared: (1) what reaches the next hop for the request — the exact HTTP/1 bytes, or the HTTP/2 header block,
+    # body and trailers as decoded by the peer, or "reject"; (2) the same for the response; (3) the Lean reference
+    # reader against harness/common/refparsers.py on every byte string mitmproxy wrote to an HTTP/1 server.
+    def _req_line(self, case):
+        cv, sv, rq = case["cv"], case["sv"], case["req"]
+        if cv == 2:
+            blk = U(rq["block"])
+            auth = dict(split_block(blk)[0]).get(b":authority", b"")
+            ok = 1
+            if auth:
+                try: url.parse_authority(auth, check=True)
+                except ValueError: ok = 0
+            return f"req 2 {sv} {ok} {enc_pairs(blk)} {rq['body_hex']} {enc_pairs(U(rq.get('trailers')))}"
+        src = Src(case, "req")
+        if not src.wellformed: return None
+        p = ref.parse_requests(self.h1_request_bytes(rq))
+        m = p.messages[0]
+        if any(k.lower() == b"expect" for k, _ in m["fields"]): return None
+        blk = [(b":method", m["method"]), (b":path", m["target"])] + list(m["fields"])
+        return f"req 1 {sv} 1 {enc_pairs(blk)} {hx(m['body'])} -"
+
+    def _resp_line(self, case):
+        cv, sv, rs = case["cv"], case["sv"], case["resp"]
+        method = Src(case, "req").method or b"GET"
+        if sv == 2:
+            return f"resp 2 {cv} {hx(method)} {enc_pairs(U(rs['block']))} {rs['body_hex']} {enc_pairs(U(rs.get('trailers')))}"
+        if cv == 1: return None
+        src = Src(case, "resp")
+        if not src.wellformed or not (200 <= rs["status"] <= 999): return None
+        p = ref.parse_responses(self.h1_response_bytes(rs), methods=[method], eof=True)
+        if len(p.messages) != 1 or p.stop is not None: return None
+        m = p.messages[0]
+        blk = [(b":status", b"%d" % m["status"])] + list(m["fields"])
+        return f"resp 1 {cv} {hx(method)} {enc_pairs(blk)} {hx(m['body'])} -"
+
+    @staticmethod
+    def _render_ref(p):
+        if p.stop is not None: return "none"
+        out = f"some {len(p.messages)}"
+        for m in p.messages:
+            out += f" {hx(m['method'])} {hx(m['target'])} {enc_pairs(m['fields'])} {hx(m['body'])}"
+        return out
+
+    @staticmethod
+    def _ref_bytes(case, obs):
+        """bytes written to an HTTP/1 server, if the Lean and the Python reference reader are to be compared on them"""
+        if case["sv"] != 1 or not obs["up"]["labels"]: return None
+        data = unhx(obs["up"].get("bytes_hex", "-"))
+        if not data or b"\n " in data or b"\n\t" in data: return None      # obs-fold: the Lean reader refuses it
+        return data
+
+    def model_lines(self, case):
+        if case.get("stream"): return None          # the streamed conversion is not modelled (F-C06a lives there)
+        req = self._req_line(case)
+        if req is None: return None
+        lines = [req]
+        resp = self._resp_line(case)
+        if resp is not None: lines.append(resp)
+        key, obs = self._memo
+        if key == json.dumps(case, sort_keys=True):
+            data = self._ref_bytes(case, obs)
+            if data is not None: lines.append("refparse " + hx(data))
+        return lines
+
+    def model_obs(self, case, replies):
+        out = {"req": replies[0], "resp": None, "ref": None}
+        rest = list(replies[1:])
+        if self._resp_line(case) is not None and rest:
+            out["resp"] = rest.pop(0) if replies[0] != "reject" else (rest.pop(0) and "n/a")
+        if rest: out["ref"] = rest[0]
+        return out
+
+    def impl_view(self, case, obs):
+        cv, sv = case["cv"], case["sv"]
+        up, down = obs["up"], obs["down"]
+        req = "reject"
+        if up["labels"]:
+            if sv == 1:
+                if up.get("bytes_hex", "-") != "-": req = "h1 " + up["bytes_hex"]
+            elif up.get("streams") and up["streams"][0]["headers"] is not None:
+                s0 = up["streams"][0]
+                req = f"h2 {enc_pairs(U(s0['headers']))} {s0['body_hex'] or '-'} {enc_pairs(U(s0['trailers']))}"
+        out = {"req": req, "resp": None, "ref": None}
+        if self._resp_line(case) is not None:
+            if req == "reject":
+                out["resp"] = "n/a"
+            else:
+                relayed = "response" in obs["hooks"] and "error" not in obs["hooks"]
+                resp = "reject"
+                if relayed and cv == 1 and down.get("bytes_hex", "-") != "-":
+                    resp = "h1 " + down["bytes_hex"]
+                elif relayed and cv == 2 and down.get("stream") and down["stream"]["headers"] is not None:
+                    s1 = down["stream"]
+                    resp = f"h2 {enc_pairs(U(s1['headers']))} {s1['body_hex'] or '-'} {enc_pairs(U(s1['trailers']))}"
+                out["resp"] = resp
+        data = self._ref_bytes(case, obs)
+        if data is not None and not case.get("stream"):
+            out["ref"] = self._render_ref(ref.parse_requests(data))
+        return out
 
     # ---------------------------------------------------------------- bookkeeping
     def classify(self, case, obs):
